@@ -180,6 +180,9 @@ class ArrayUnionMatcher(CombinationMatcher):
         self._partsize = partsize
 
         self._a = array("d", (0 for _ in xrange(self._partsize)))
+        # Which documents in the current part matched (a matching document's
+        # score can be zero or negative under some weightings)
+        self._hit = array("b", (0 for _ in xrange(self._partsize)))
         self._docnum = self._min_id()
         self._read_part()
 
@@ -197,6 +200,7 @@ class ArrayUnionMatcher(CombinationMatcher):
         m._doccount = self._doccount
         m._partsize = self._partsize
         m._a = array("d", self._a)
+        m._hit = array("b", self._hit)
         m._docnum = self._docnum
         m._offset = self._offset
         m._limit = self._limit
@@ -221,15 +225,18 @@ class ArrayUnionMatcher(CombinationMatcher):
         limit = min(self._docnum + self._partsize, self._doccount)
         offset = self._docnum
         a = self._a
+        hit = self._hit
 
         # Clear the array
         for i in xrange(self._partsize):
             a[i] = 0
+            hit[i] = 0
 
         # Add the scores from the submatchers into the array
         for m in self._submatchers:
             while m.is_active() and m.id() < limit:
                 i = m.id() - offset
+                hit[i] = 1
                 if scored:
                     a[i] += m.score() * boost
                 else:
@@ -240,13 +247,13 @@ class ArrayUnionMatcher(CombinationMatcher):
         self._limit = limit
 
     def _find_next(self):
-        a = self._a
+        hit = self._hit
         docnum = self._docnum
         offset = self._offset
         limit = self._limit
 
         while docnum < limit:
-            if a[docnum - offset] > 0:
+            if hit[docnum - offset]:
                 break
             docnum += 1
 
@@ -316,9 +323,9 @@ class ArrayUnionMatcher(CombinationMatcher):
         offset = self._offset
         limit = self._limit
 
-        a = self._a
+        hit = self._hit
         while docnum < doccount:
-            if a[docnum - offset] > 0:
+            if hit[docnum - offset]:
                 yield docnum
 
             docnum += 1
